@@ -1,6 +1,6 @@
 """C16 — Response parser is total and faithful (schema + structural clauses)."""
 import json, os
-from ..core import BV, strip, walk, fmt_t
+from ..core import is_logging_span, BV, strip, walk, fmt_t
 from .. import lib, guards, terms, flow, schema, facts, census
 
 
@@ -57,6 +57,9 @@ def run(F, R):
         ret = terms.render(pj, pj.trace_local(0), W, {1: "json"}, transparent=set(terms.TRANSPARENT) | {"std::ops::Try::branch"})
         # Ok(parse_safe_json(json)?.response)  or  parse_safe_json(json).map(|w| w.response)
         R.check("C16-R2", "wrapper", "Ok{parse_safe_json(json)@Continue.0.response}" in ret or ret == "map(parse_safe_json(json), |$1| $1.response)", ret[:120], "parse_json_response returns %s" % ret[:160])
+        # .. and does nothing else to what was parsed (no pass over the response that could alter, bound or drop what the server sent)
+        extra = sorted(set(lib.norm(t.get("callee") or "?").split("::")[-1] for _, t in pj.calls() if not is_logging_span(t["sp"])) - {"parse_safe_json", "branch", "from_residual", "map", "map_err"})
+        R.check("C16-R2", "wrapper-only", not extra and not pj.sccs(), "parse_json_response only unwraps {\"response\": ..}", "parse_json_response post-processes the parsed response (%s%s): values are no longer preserved as sent" % (extra, ", loop" if pj.sccs() else ""))
         call = [t for _, t in pj.calls() if lib.callee_is(t, "protocol::response::parse_safe_json")]
         tys = [lib.norm(c.types[x]["s"]) for t in call for x in t.get("substs", []) if isinstance(x, int)]
         R.check("C16-R2", "wrapper-type", tys == ["protocol::response::parse_json_response::ResponseWrapper"], str(tys), "parse_safe_json is instantiated at %s" % tys)
